@@ -79,6 +79,9 @@ class Terms:
             inner = self.of_local(pl["l"], pl["p"], depth + 1)
         elif k == "unop" and rv["op"] == "Neg":
             inner = ("neg", self.of_operand(rv["a"], depth + 1))
+        elif k == "binop" and rv["op"] in ("Lt", "Le", "Gt", "Ge", "Eq", "Ne"):
+            # a comparison used as a value (stored flag): an uninterpreted predicate of its operands
+            inner = ("call", "cmp_" + rv["op"].lower(), self.of_operand(rv["a"], depth + 1), self.of_operand(rv["b"], depth + 1))
         elif k == "unop" and rv["op"] == "Not":
             inner = ("call", "not", self.of_operand(rv["a"], depth + 1))
         elif k == "aggregate" and proj and proj[0]["k"] == "field" and isinstance(proj[0].get("i"), int) and proj[0]["i"] < len(rv.get("ops", [])) \
